@@ -75,7 +75,12 @@ def programs(tier, seed):
         keep = [p for p in progs if refill(p) and p["clients"][0]["port"] == "main" and p["clients"][0]["cmds"][0]["op"] in ("get", "gat")]
         rest = [p for p in progs if p not in keep]
         rng.shuffle(rest)
-        progs = keep + rest[:max(0, 300 - len(keep))]
+        # the same window when the racing command is NOT the connection's first: both connections begin with a get
+        # of a key of the other stripe (whatever a connection keeps between commands must not matter)
+        warm = {"op": "get", "k": "k2", "v": [], "f": 0, "t": 0}
+        later = [{"init": p["init"], "clients": [{"port": c["port"], "cmds": [dict(warm)] + c["cmds"]} for c in p["clients"]]}
+                 for p in keep if p["clients"][1]["cmds"][0]["op"] in ("set", "delete", "append", "touch", "replace")]
+        progs = keep + later + rest[:max(0, 300 - len(keep) - len(later))]
     extra = 60 if tier == "quick" else 600
     allops = ops_for("k1", True) + ops_for("k2", False)
     for _ in range(extra):
@@ -145,6 +150,8 @@ def validate(run, trace_files, prop, label):
             continue
         if prop == "C03" and kind in ("Stuck", "HeldAfterReturn", "UnlockNotHeld", "OneLock", "LockFree", "NoReply"):
             continue
+        if prop == "C08" and kind not in ("NoReply", "Stuck"):
+            continue  # without the wrapper only the reply discipline is asked for
         what = "%s in program %s fault=%s, reader mode %s, %d stripe(s), schedule %s: %s / %s" % (
             kind, json.dumps(prog["clients"]), json.dumps(prog.get("fault")), e["mode"], e["stripes"], e["choices"],
             json.dumps(m["a"])[:300], json.dumps(m["b"])[:300])
@@ -249,7 +256,10 @@ def check_c03(prop, tier, seed):
     design(run, tier, 0)
     progs = programs(tier, seed)
     if quick:
-        progs = progs[:130] + progs[260:290]
+        # the refill-window families come first in the list; then a sample of the other pairs and of the larger programs
+        single = [p for p in progs if all(len(c["cmds"]) == 1 for c in p["clients"]) and len(p["clients"]) == 2]
+        multi = [p for p in progs if p not in single]
+        progs = single[:110] + multi[:60]
     modes = [("multi", 0), ("single", 0), ("multi", 1)] if quick else [("multi", 0), ("single", 0), ("multi", 1), ("single", 2), ("multi", 8)]
     run_modes(run, progs, modes, 250 if quick else 800, prop)
     run.assumptions += ["handler calls are atomic steps (one backend request each for the direct handler)",
